@@ -856,7 +856,29 @@ def c09(rep, tier):
     A = rep.rule('C09.a', 'ties between macros of one priority are broken by (start ascending, length descending) with a strict weak order', floor=1)
     comps = [(f, k, h) for f, k, h in cmpeval.find_comparators(mm.facts) if k == 'std::min_element' and h is not None and
              (h['q'] == 'Theo::apply_macros' or h['q'] in getattr(mm, 'inlined_helpers', []))]
-    if len(comps) != 1:
+    proj = []
+    if not comps:
+        # std::ranges::min_element(range, {}, projection): the default order on what a one-parameter lambda returns
+        lam1 = {f['q']: f for f in mm.facts.functions if f['kind'] == 'lambda' and len(f.get('params', [])) == 1}
+        for e in walk_all_exprs(am['body']):
+            if e.get('k') == 'call' and 'min_element' in ((e.get('callee') or '') + (e.get('callee_sig') or '')):
+                for a in e.get('args', []):
+                    for x in walk_expr(a):
+                        if x.get('k') == 'lambda' and x.get('fn') in lam1:
+                            proj.append((lam1[x['fn']], e))
+    if not comps and len(proj) == 1:
+        pf_, pe_ = proj[0]
+        rets = [st for st in walk_stmts(pf_['body']) if st['k'] == 'return' and st.get('e') is not None]
+        flds = field_chain(strip_copies(strip_casts(rets[0]['e'])))[1] if len(rets) == 1 else []
+        rtxt = show(strip_copies(strip_casts(rets[0]['e']))).strip('()') if len(rets) == 1 else ''
+        if (flds and flds[-1] == 'location') or rtxt.endswith(('.location', '->location')):
+            A.violation('apply_macros: min_element comparator', 'the match is chosen by a projection on the start position alone (%s): among matches that start at the same token the first one '
+                        'found wins, not the longest' % show(rets[0]['e'])[:50], W(pf_, None, mm.facts),
+                        witness={'input': 'DEFINE PRIO 5 foo <ID> AS y := 2 END DEFINE  DEFINE PRIO 5 foo <ID> bar AS x := 1 END DEFINE  foo z bar',
+                                 'effect': 'the shorter macro wins; swapping the definitions changes the result'})
+        else:
+            A.unknown('apply_macros: min_element comparator', 'min_element with a projection that is not understood (%s)' % (show(rets[0]['e'])[:60] if rets else 'no single return'))
+    elif len(comps) != 1:
         A.unknown('apply_macros: min_element comparator', '%d comparators found' % len(comps))
     else:
         f = comps[0][0]
@@ -1436,6 +1458,18 @@ def driver_rejects_rule(G, mm):
                         why = why or 'in the %s arm' % '/'.join(str(x) for x in lab[1])
                     continue
                 if isinstance(lab, bool):
+                    if getattr(cn, 'stmt', None) is not None and cn.stmt.get('k') in ('while', 'for', 'do', 'rangefor'):
+                        continue        # the condition of the driver loop itself (for (;;), while (true))
+                    c0 = strip_casts(c)
+                    if c0 is not None and c0.get('k') == 'bin' and c0.get('op') in ('==', '!='):
+                        ens = [x.get('name') for x in walk_expr(c0) if x.get('k') == 'ref' and x.get('dk') == 'enumerator']
+                        if len(ens) == 1 and ens[0] in ('SHIFT', 'REDUCE', 'ACCEPT', 'ERR'):
+                            # the kind of the cell, tested by an if-chain instead of a switch
+                            is_kind = (c0['op'] == '==') == lab
+                            if (ens[0] == 'ERR') == is_kind:
+                                continue            # "the cell is empty" / "the cell is not a SHIFT (REDUCE, ACCEPT)"
+                            why = 'in the %s arm' % ens[0]
+                            continue
                     if 'action' in txt and 'size()' in txt:
                         continue        # the column test
                     if 'end()' in txt and ('ip' in txt or 'begin' in txt or '==' in txt) and 'size()' not in txt:
@@ -1849,6 +1883,34 @@ def c12(rep, tier):
             okb = lists.get(src.get('d')) is True
             B.check(okb, 'apply_macros: bins filled from %s' % src.get('name'), 'the priority bins are filled from a list that only receives conflict-free detectors',
                     'the bins are filled from %s, which also holds rejected detectors (rejected macros would be applied)' % src.get('name'), W(am, None, mm.facts))
+    # the detectors that are asked for a match are taken from a filtered list or from a bin - never from the list get_detectors() returned
+    def decl_init(d_):
+        for st_ in walk_stmts(am['body']):
+            if st_['k'] == 'decl':
+                for v_ in st_['vars']:
+                    if v_.get('d') == d_:
+                        return v_.get('init')
+        return None
+    for ev in gam.calls():
+        e = ev.e
+        if not (is_call(e, '::detect') and e.get('obj') is not None):
+            continue
+        x = strip_casts(e['obj'])
+        cont = None
+        if x.get('k') == 'ref' and x.get('dk') == 'var':
+            for st_ in walk_stmts(am['body']):
+                if st_['k'] == 'rangefor' and isinstance(st_.get('var'), dict) and st_['var'].get('d') == x.get('d'):
+                    cont = strip_casts(st_['range'])
+        elif is_call(x, '::operator[]') or is_call(x, '::at'):
+            cont = strip_casts(x['obj'])
+        if cont is None or cont.get('k') != 'ref' or 'MacroDetector' not in (cont.get('cty') or ''):
+            continue
+        init = decl_init(cont.get('d'))
+        unfiltered = lists.get(cont.get('d')) is False or (init is not None and is_call(strip_copies(strip_casts(init)), 'get_detectors') and lists.get(cont.get('d')) is None)
+        B.check(not unfiltered, 'apply_macros: %s.detect(..)' % show(x)[:30], 'the detector asked for a match comes from a filtered list or a bin',
+                'the detector that is asked for a match is taken from %s, the list of ALL detectors (%s): a macro that was rejected as non-linear is applied all the same, '
+                'and with indices computed for the filtered list the wrong macros are applied' % (cont.get('name'), 'the result of get_detectors()' if init is not None else 'it also receives rejected detectors'),
+                W(am, e, mm.facts), witness={'macros': 'a rejected macro defined before an accepted one, and a use of both'} if unfiltered else None)
     if accumulated:
         B.violation('apply_macros: usable only when no error so far', 'a detector is kept only when the ACCUMULATED error list (%s) is empty: after the first rejected macro every later '
                     'macro is dropped without an error of its own and is never applied' % show(accumulated[0])[:60], W(am, accumulated[0], mm.facts),
